@@ -26,7 +26,12 @@ LEVEL_TEXT = (
     "denotes, class by class, the totals of the assigned UTxOs, the literals and the fee combined by integer "
     "arithmetic - source - Ada(q) - fees is of this shape (C01_template_value, sumUtxo_spec); (6) the independent "
     "semantics the judge evaluates and the pipeline meet on the lovelace fragment: [[e]] is den(e) lovelace and the "
-    "reduced constant denotes den(e) lovelace (eval_lovelace, C01_spec_meets_pipeline). Per generated program (two layouts of the same tree) the real parse, analyze, lower, "
+    "reduced constant denotes den(e) lovelace (eval_lovelace, C01_spec_meets_pipeline); (7) from the source to the "
+    "value: an amount written with asset constructors over integer expressions, the name fees, input names, + and - "
+    "(source - Ada(quantity) - fees) lowers through lowerE at every fuel from a bound on, and with the arguments, the "
+    "assigned inputs and the fee applied reduces to a constant denoting, class by class, integer arithmetic on the "
+    "constructors' amounts, the fee and the totals of the assigned UTxOs (C01_source_to_value, input_lowers, "
+    "lower_int_inert; the example program satisfies every hypothesis). Per generated program (two layouts of the same tree) the real parse, analyze, lower, "
     "resolve_tx (apply, reduce, input selection, compile) is run; the lowered IR must equal the model's, and the "
     "transaction bytes, decoded by the Lean Conway reader, must hold exactly the inputs, outputs (address, lovelace, "
     "native assets, inline datum, in source order), mint, validity interval, signers, reference inputs, metadata "
@@ -35,13 +40,13 @@ LEVEL_TEXT = (
 )
 LEVEL_NOTE = (
     "Partial: the end-to-end equation (lower, apply, reduce = denotation) is proved for the integer, the lovelace and "
-    "the declared-asset fragments (asset values read from inputs, AnyAsset and property access are per case); records with spread, property access, inputs, selection and the Cardano compiler are compared "
+    "the declared-asset fragments, and for amounts over those, fees and input names (C01_source_to_value); AnyAsset and property access are per case; records with spread, property access, inputs, selection and the Cardano compiler are compared "
     "with [[.]] per case (compile exactness on constant IR is C02's theorems). min_utxo, "
     "collateral, policies with scripts and chain-specific directives are not generated yet; names are unique, so "
     "shadowing between scopes is not exercised."
 )
 PROP = "C01"
-TARGETS = ["Tx3Proofs.C01", "Tx3Proofs.C01Assets", "Tx3Proofs.C01Lovelace", "Tx3Proofs.C01MultiAsset", "Tx3Proofs.C01Template", "Tx3Proofs.C01Spec"]
+TARGETS = ["Tx3Proofs.C01", "Tx3Proofs.C01Assets", "Tx3Proofs.C01Lovelace", "Tx3Proofs.C01MultiAsset", "Tx3Proofs.C01Template", "Tx3Proofs.C01Spec", "Tx3Proofs.C01Change"]
 THEOREMS = ["Tx3.Lang.eval_int", "Tx3.Lang.lower_int", "Tx3.Lang.C01_int_fragment", "Tx3.Lang.C01_sub_chain",
             "Tx3.Lang.C01_sub_chain_distinct",
             "Tx3.assetsOfChildren_amt", "Tx3.reread_canonical", "Tx3.C01_assets_add", "Tx3.C01_assets_neg",
@@ -49,7 +54,9 @@ THEOREMS = ["Tx3.Lang.eval_int", "Tx3.Lang.lower_int", "Tx3.Lang.C01_int_fragmen
             "Tx3.Lang.lower_lovelace", "Tx3.Lang.C01_lovelace_fragment",
             "Tx3.Lang.lower_multi", "Tx3.Lang.C01_multi_asset_fragment",
             "Tx3.sumUtxo_spec", "Tx3.C01_template_value",
-            "Tx3.Lang.eval_lovelace", "Tx3.Lang.C01_spec_meets_pipeline"]
+            "Tx3.Lang.eval_lovelace", "Tx3.Lang.C01_spec_meets_pipeline",
+            "Tx3.Lang.lower_int_inert", "Tx3.Lang.denotes_add", "Tx3.Lang.denotes_sub", "Tx3.Lang.lowerInput_shape",
+            "Tx3.Lang.input_lowers", "Tx3.Lang.C01_source_to_value", "Tx3.Lang.full_pipeline_order"]
 RULE = (
     "cases = generated programs over the core fragment: env (Int, Bytes), 2-3 parties, a policy, an asset, a record "
     "and a variant type; one transaction with 1-3 positive Int parameters, optionally an unconstrained Int, a Bytes "
